@@ -344,6 +344,22 @@ for _k, _v in {
            "switch is registered once",
 }.items():
     EXTRA[_k] = (EXTRA[_k] + "; " + _v) if _k in EXTRA else _v
+# round seven
+for _k, _v in {
+    "C02": "is_end_of_pdu clear / last-item / restore pairing by CFG dominance and must-pass "
+           "queries (shared with C01.R1); one constant byte order in the BIT-MASK helpers",
+    "C03": "must-pass-through of both cursor assignments in the value pass of key parameters; "
+           "one constant byte order in the BIT-MASK helpers",
+    "C06": "wiring table of the inherited candidate sets (diag comms, global negative "
+           "responses) shared with C09.R2",
+    "C09": "local getters never read a Union[OdxLinkRef, ...] raw field without resolving it",
+    "C10": "dominating branch conditions of every resolve call are independent of sibling "
+           "reference fields",
+    "C14": "one constant byte order in the BIT-MASK helpers of the shared decoder",
+    "C15": "the sub-value index ranges over the unfiltered subparams attribute",
+    "C18": "decision table of the composite static bit length shared with C08",
+}.items():
+    EXTRA[_k] = (EXTRA[_k] + "; " + _v) if _k in EXTRA else _v
 COMMON = ("; shared over the property's scope: hidden-state rules (mutable defaults, memos keyed "
           "by name, lazily cached values ignoring an argument, memoised methods, indexes derived "
           "from lists that a later initialisation phase extends, containers that accumulate "
